@@ -165,6 +165,7 @@ type Sorts struct {
 	order   []Sort
 	info    map[Sort]*sortInfo
 	busy    map[Sort]bool
+	zeroBusy map[Sort]bool // struct sorts whose zero value is being built (recursion guard)
 	byType  map[string]Sort // types.TypeString -> sort
 	tparams map[string]types.Type
 	typeIDs map[string]int
@@ -583,6 +584,17 @@ func (ss *Sorts) zeroOfSort(s Sort, t types.Type) Term {
 	}
 	switch si.Kind {
 	case "struct":
+		// a struct that contains a slice or map of itself: the default element of
+		// that (empty) collection is never read, an unconstrained constant will do
+		if ss.zeroBusy == nil {
+			ss.zeroBusy = map[Sort]bool{}
+		}
+		if ss.zeroBusy[s] {
+			ss.declare(&sortInfo{Name: Sort("zero$" + string(s)), Kind: "const", Decl: fmt.Sprintf("(declare-const zero.%s %s)", s, s)})
+			return Term{fmt.Sprintf("zero.%s", s), s, t}
+		}
+		ss.zeroBusy[s] = true
+		defer delete(ss.zeroBusy, s)
 		var parts []string
 		for _, f := range si.Fields {
 			parts = append(parts, ss.zeroOfSort(f.Sort, f.T).S)
